@@ -278,6 +278,56 @@ fn leading_reference_cases(rep: &mut Report) {
     }
 }
 
+/// The value of a variable changes while the process runs (and the variable disappears and comes
+/// back): whatever is built afterwards goes where the variable points *now*.
+fn changing_value_cases(rep: &mut Report) {
+    const NAME: &str = "L4V_CHG";
+    let steps: [Option<&str>; 6] = [Some("one"), Some("two"), None, Some("three"), Some(""), Some("one")];
+    for site in 0..3 {
+        let sc = Scratch::new("c19chg");
+        for (k, v) in steps.iter().enumerate() {
+            match v {
+                Some(v) => std::env::set_var(NAME, v),
+                None => std::env::remove_var(NAME),
+            }
+            let raw_rel = format!("$ENV{{{}}}/f{}.log", NAME, k);
+            let raw = format!("{}/{}", sc.path.to_str().unwrap(), raw_rel);
+            let want_rel = match v {
+                Some(v) if v.is_empty() => format!("f{}.log", k),
+                Some(v) => format!("{}/f{}.log", v, k),
+                None => raw_rel.clone(),
+            };
+            rep.case_enumerated(true);
+            let r = trap::catch(|| -> Result<(), String> {
+                match site {
+                    0 => FileAppender::builder().build(&raw).map(|_| ()).map_err(|e| e.to_string()),
+                    1 => RollingFileAppender::builder()
+                        .build(&raw, Box::new(CompoundPolicy::new(Box::new(SizeTrigger::new(1 << 30)), Box::new(DeleteRoller::new()))))
+                        .map(|_| ())
+                        .map_err(|e| e.to_string()),
+                    _ => {
+                        let active = sc.path.join("active.tmp");
+                        std::fs::write(&active, b"x").map_err(|e| e.to_string())?;
+                        let roller = FixedWindowRoller::builder().build(&format!("{}.{{}}", raw), 2).map_err(|e| e.to_string())?;
+                        roller.roll(&active).map_err(|e| e.to_string())
+                    }
+                }
+            });
+            let want_file = if site == 2 { format!("{}.0", want_rel) } else { want_rel.clone() };
+            let got: Vec<String> = dir_files(&sc.path).keys().cloned().collect();
+            rep.count("locations_compared", 1);
+            rep.count("builds_after_a_change_of_the_variable", 1);
+            if !matches!(r, Ok(Ok(()))) || !got.iter().any(|g| *g == want_file) {
+                rep.violation("C19:wrong-location:value-changed-since-an-earlier-expansion", json!({"input": raw_rel, "call_site": site,
+                    "history_of_the_variable": steps[..=k].iter().map(|s| s.map(|x| format!("{:?}", x)).unwrap_or("unset".into())).collect::<Vec<_>>(),
+                    "expected_file": want_file, "files_present": got, "result": format!("{:?}", r.map_err(|p| p.message))}));
+                break;
+            }
+        }
+    }
+    std::env::remove_var(NAME);
+}
+
 fn directory_cases(rep: &mut Report) {
     // a value containing path separators: the file lands in the expanded directory
     for (k, raw_rel, want_rel) in [
@@ -302,7 +352,7 @@ pub fn run(rep: &mut Report) {
     rep.rule = "path strings assembled from literal text (ASCII, non-ASCII), stray '$' '{' '}', '$ENV{' prefixes, well-formed \
         references to set / unset / empty-valued variables (names with '.', '_' and non-ASCII letters), repeated and adjacent \
         references, malformed ones (empty name, bad first character, bad inner character, missing brace, wrong case, nested), \
-        and strings in which a substitution creates text that looks like a later reference; each string is given to \
+        strings in which a substitution creates text that looks like a later reference, and a variable whose value changes / disappears / returns between builds; each string is given to \
         FileAppender::build, RollingFileAppender::build or FixedWindowRoller::roll inside a fresh directory and the created \
         file's name is compared with a single-pass reference expansion; non-trivial = contains '$ENV{'; distinct = (string, call site)".to_owned();
     rep.assume("variable values are '$'-free (property precondition); path separators only in the dedicated directory cases");
@@ -312,6 +362,7 @@ pub fn run(rep: &mut Report) {
     directory_cases(rep);
     if rep.only.is_none() {
         leading_reference_cases(rep);
+        changing_value_cases(rep);
     }
     rep.require(rep.counter("locations_compared") > 1000, "fewer than 1000 locations compared");
     rep.require(rep.counter("strings_with_at_least_one_substitution") > 500, "too few strings with substitutions");
